@@ -410,6 +410,22 @@ def rule_l4(F):
     return r
 
 
+def rule_l5(F):
+    """The host-side mirrors of the built-in enums place their payloads where generated code does: exactly #[repr(u8)]
+    (tag byte, then each variant's payload at 1 rounded up to its own alignment) - shared with C05.A1."""
+    from . import c05
+    r0 = c05.rule_a1(F)
+    r = RuleResult("C02.L5", "host-side enum mirrors (Option/Result/Verdict) are exactly repr(u8): payload offsets agree with the per-variant walks of L1", floor=3)
+    r.instances = [k for k in r0.instances if "::" in k and "|" not in k][:3] or r0.instances[:3]
+    r.samples = r0.samples[:3]
+    r.anchor_missing = list(r0.anchor_missing)
+    for v in r0.violations:
+        if v.disc == "repr":
+            v.rule = "C02.L5"
+            r.violations.append(v)
+    return r
+
+
 def rules(ctx):
     F = ctx["F"]
-    return [rule_l1(F), rule_l2(F), rule_l3(F), rule_l4(F)]
+    return [rule_l1(F), rule_l2(F), rule_l3(F), rule_l4(F), rule_l5(F)]
